@@ -35,9 +35,34 @@ func parseValues(out string) map[string]string {
 		case ')':
 			d--
 			if d == 0 && start >= 0 {
-				item := s[start+1 : k]
+				item := strings.TrimSpace(s[start+1 : k])
 				sp := strings.IndexAny(item, " \n")
-				if sp > 0 {
+				if strings.HasPrefix(item, "(") {
+					// compound term: find its closing parenthesis
+					dd := 0
+					for q := 0; q < len(item); q++ {
+						if item[q] == '|' {
+							if j := strings.IndexByte(item[q+1:], '|'); j >= 0 {
+								q += j + 1
+								continue
+							}
+						}
+						if item[q] == '(' {
+							dd++
+						} else if item[q] == ')' {
+							dd--
+							if dd == 0 {
+								sp = q + 1
+								break
+							}
+						}
+					}
+				} else if strings.HasPrefix(item, "|") {
+					if j := strings.IndexByte(item[1:], '|'); j >= 0 {
+						sp = j + 2
+					}
+				}
+				if sp > 0 && sp < len(item) {
 					m[strings.TrimSpace(item[:sp])] = strings.TrimSpace(item[sp:])
 				}
 				start = -1
